@@ -2,7 +2,9 @@ package ssaq
 
 import (
 	"fmt"
+	"go/token"
 	"go/types"
+	"regexp"
 	"sort"
 	"strings"
 
@@ -291,4 +293,213 @@ func ParamRefName(p *ssa.Parameter) string {
 		}
 	}
 	return p.Name()
+}
+
+// Deferred calls and result spills in normal forms.
+
+const deferMark = "\x02defer:"
+
+// runDeferred turns the deferred calls recorded so far into effects, in
+// reverse order of deferral (what RunDefers does).
+func runDeferred(effects []string) []string {
+	var out, ds []string
+	for _, e := range effects {
+		if strings.HasPrefix(e, deferMark) {
+			ds = append(ds, strings.TrimPrefix(e, deferMark))
+		} else {
+			out = append(out, e)
+		}
+	}
+	for i := len(ds) - 1; i >= 0; i-- {
+		out = append(out, ds[i])
+	}
+	return out
+}
+
+// dropDeferred removes deferred calls that were never run (a path that panics).
+func dropDeferred(effects []string) []string {
+	var out []string
+	for _, e := range effects {
+		if !strings.HasPrefix(e, deferMark) {
+			out = append(out, e)
+		}
+	}
+	return out
+}
+
+// resolveSpills: a function with a defer returns through anonymous result
+// locals ("*&t0 = v; ...; return (*&t0)"). The stores are not effects and the
+// results are the values stored last on the path.
+func resolveSpills(effects, results []string) ([]string, []string) {
+	isSpill := func(s string) bool {
+		if !strings.HasPrefix(s, "*&t") {
+			return false
+		}
+		for _, c := range s[3:] {
+			if c < '0' || c > '9' {
+				return false
+			}
+		}
+		return len(s) > 3
+	}
+	last := map[string]string{}
+	var out []string
+	for _, e := range effects {
+		if i := strings.Index(e, " = "); i > 0 && isSpill(e[:i]) {
+			last[e[:i]] = e[i+3:]
+			continue
+		}
+		out = append(out, e)
+	}
+	rs := append([]string{}, results...)
+	for i, r := range rs {
+		if v, ok := last[r]; ok && isSpill(r) {
+			rs[i] = v
+		}
+	}
+	return out, rs
+}
+
+// callString renders a call (of a defer or go statement) like expr renders a
+// call instruction.
+func (fp *fingerprinter) callString(c *ssa.CallCommon) string {
+	var args []string
+	for _, a := range c.Args {
+		args = append(args, fp.expr(a))
+	}
+	if c.IsInvoke() {
+		return fmt.Sprintf("%s.%s(%s)", fp.expr(c.Value), c.Method.Name(), strings.Join(args, ", "))
+	}
+	if f := c.StaticCallee(); f != nil {
+		name := FuncName(f)
+		if fp.short {
+			if i := strings.LastIndex(name, "."); i >= 0 {
+				name = name[i+1:]
+			}
+		}
+		return fmt.Sprintf("%s(%s)", name, strings.Join(args, ", "))
+	}
+	return fmt.Sprintf("%s(%s)", fp.expr(c.Value), strings.Join(args, ", "))
+}
+
+// Canonical lines of a normal form.
+
+var reNumConst = regexp.MustCompile(`^-?\d+:[A-Za-z0-9_.]+$`)
+
+// canonLine puts the conditions of one path into a canonical set and
+// propagates what they say about values into the effects and results:
+//   - a path whose conditions contain "false", or an atom together with its
+//     negation, is infeasible: ok is false and the line is dropped;
+//   - "K == e" makes every "K' != e" with another constant redundant (a switch
+//     and the equivalent guard clauses test the other members in different
+//     orders);
+//   - where "K == e" holds, e is K in the effects and results (returning x under
+//     x == 0 and returning 0 are the same).
+func canonLine(conds, effects, results []string) (c, e, r []string, ok bool) {
+	cs := sortedCopy(conds)
+	if !Consistent(cs) {
+		return nil, nil, nil, false
+	}
+	eq := map[string]string{} // expression -> constant
+	for _, a := range cs {
+		if a == "false" {
+			return nil, nil, nil, false
+		}
+		if l, op, rr, isCmp := splitTop(a); isCmp && op == "==" {
+			switch {
+			case reNumConst.MatchString(l) && !reNumConst.MatchString(rr):
+				eq[rr] = l
+			case reNumConst.MatchString(rr) && !reNumConst.MatchString(l):
+				eq[l] = rr
+			}
+		}
+	}
+	for _, a := range cs {
+		if l, op, rr, isCmp := splitTop(a); isCmp && op == "!=" {
+			if k, has := eq[rr]; has && reNumConst.MatchString(l) && l != k {
+				continue
+			}
+			if k, has := eq[l]; has && reNumConst.MatchString(rr) && rr != k {
+				continue
+			}
+		}
+		c = append(c, a)
+	}
+	subst := func(s string) string {
+		for x, k := range eq {
+			for from := 0; ; {
+				i := strings.Index(s[from:], x)
+				if i < 0 {
+					break
+				}
+				i += from
+				j := i + len(x)
+				before := i == 0 || !(isIdent(s[i-1]) || s[i-1] == '.')
+				after := j == len(s) || !(isIdent(s[j]) || s[j] == '.' || s[j] == '(' || s[j] == '[' || s[j] == '#')
+				if before && after {
+					s = s[:i] + k + s[j:]
+					from = i + len(k)
+				} else {
+					from = j
+				}
+			}
+		}
+		return s
+	}
+	for _, x := range effects {
+		e = append(e, subst(x))
+	}
+	for _, x := range results {
+		r = append(r, subst(x))
+	}
+	return c, e, r, true
+}
+
+func isIdent(c byte) bool {
+	return c == '_' || (c >= '0' && c <= '9') || (c >= 'a' && c <= 'z') || (c >= 'A' && c <= 'Z')
+}
+
+func isUnsigned(t types.Type) bool {
+	b, ok := t.Underlying().(*types.Basic)
+	return ok && b.Info()&types.IsUnsigned != 0
+}
+
+func isZeroConst(v ssa.Value) bool {
+	k, ok := ConstInt(v)
+	return ok && k == 0
+}
+
+func isNumConst(v ssa.Value) bool {
+	_, ok := ConstInt(v)
+	return ok
+}
+
+// foldConstCmp decides "a op b" when both renderings are numeric constants
+// ("2:Size").
+func foldConstCmp(a string, op token.Token, b string) (result, decided bool) {
+	if !reNumConst.MatchString(a) || !reNumConst.MatchString(b) {
+		return false, false
+	}
+	var x, y int64
+	if _, err := fmt.Sscanf(a[:strings.Index(a, ":")], "%d", &x); err != nil {
+		return false, false
+	}
+	if _, err := fmt.Sscanf(b[:strings.Index(b, ":")], "%d", &y); err != nil {
+		return false, false
+	}
+	switch op {
+	case token.EQL:
+		return x == y, true
+	case token.NEQ:
+		return x != y, true
+	case token.LSS:
+		return x < y, true
+	case token.LEQ:
+		return x <= y, true
+	case token.GTR:
+		return x > y, true
+	case token.GEQ:
+		return x >= y, true
+	}
+	return false, false
 }
